@@ -86,10 +86,11 @@ impl<W: AsyncWrite + Unpin + Send + Sync> AsyncWritePacket for W {
 
     async fn write_text_component(&mut self, str: &str) -> Result<(), Error> {
         if !str.starts_with('{') {
-            // writes a TAG_String (0x08) TextComponent
+            // writes a TAG_String (0x08) TextComponent (NBT strings are modified UTF-8)
+            let encoded = to_modified_utf8(str);
             self.write_u8(0x08).await?;
-            self.write_u16(str.len() as u16).await?;
-            self.write_all(str.as_bytes()).await?;
+            self.write_u16(encoded.len() as u16).await?;
+            self.write_all(&encoded).await?;
             return Ok(());
         }
 
@@ -107,4 +108,26 @@ impl<W: AsyncWrite + Unpin + Send + Sync> AsyncWritePacket for W {
 
         Ok(())
     }
+}
+
+/// Encodes a string as Java's "modified UTF-8", the encoding of NBT strings: U+0000 becomes
+/// `C0 80` and characters above U+FFFF become a surrogate pair of two three-byte sequences.
+fn to_modified_utf8(str: &str) -> Vec<u8> {
+    let mut encoded = Vec::with_capacity(str.len());
+    for char in str.chars() {
+        match u32::from(char) {
+            0 => encoded.extend_from_slice(&[0xC0, 0x80]),
+            0x1_0000.. => {
+                for unit in char.encode_utf16(&mut [0; 2]) {
+                    encoded.extend_from_slice(&[
+                        0xE0 | (*unit >> 12) as u8,
+                        0x80 | ((*unit >> 6) & 0x3F) as u8,
+                        0x80 | (*unit & 0x3F) as u8,
+                    ]);
+                }
+            }
+            _ => encoded.extend_from_slice(char.encode_utf8(&mut [0; 4]).as_bytes()),
+        }
+    }
+    encoded
 }
